@@ -39,6 +39,7 @@ pub fn plan(quick: bool) -> Vec<Part> {
     v.push(Part::new("C03", "handbuilt-node-lists", 5, Space::singles(5, if quick { 7 } else { 8 })).dim("handbuilt", &[1]));
     for k in BIG_K {
         v.push(Part::new("C03", "catalogue", k, Space { segs: vec![catalogue(k)] }).dim("sub", &[4]).dim("all_links", &[0]));
+        v.push(Part::new("C03", "lifted", k, vcommon::families::lifted(k, !quick)).dim("sub", &[4]).dim("all_links", &[0]));
     }
     v
 }
@@ -414,6 +415,54 @@ pub fn run<K: Kmer + Send + Sync>(c: &GCase) -> Outcome {
                     o.fail("fix-exts-wrong", format!("[direct] fix_exts(valid-node mask {:b}): node {} = {} keeps L{:?} R{:?}, want L{:?} R{:?}", mask, i, ascii(&gv.nodes[i].seq), after.nodes[i].l, after.nodes[i].r, wl, wr));
                 }
             }
+            // a SECOND pruning on the pruned graph: fix_exts(None) must change nothing (everything left resolves),
+            // fix_exts(Some(mask2)) must leave exactly what resolves into mask AND mask2 (every mask2 for <= 3 nodes)
+            let mut seconds: Vec<Option<u32>> = vec![None];
+            if nn <= 3 {
+                seconds.extend((0u32..(1 << nn)).map(Some));
+            }
+            for second in seconds {
+                let mut g2 = if second.is_none() { None } else { Some(compress_kmers(c.stranded, &sum_spec(), &pruned).finish_serial()) };
+                let gx: &mut DebruijnGraph<K, u16> = match g2.as_mut() {
+                    Some(x) => {
+                        x.fix_exts(Some(&bs));
+                        x
+                    }
+                    None => &mut gg,
+                };
+                let both = match second {
+                    None => {
+                        gx.fix_exts(None);
+                        mask
+                    }
+                    Some(m2) => {
+                        let mut b2 = BitSet::with_capacity(nn);
+                        for i in 0..nn {
+                            if m2 >> i & 1 == 1 {
+                                b2.insert(i);
+                            }
+                        }
+                        gx.fix_exts(Some(&b2));
+                        mask & m2
+                    }
+                };
+                let after2 = view(gx);
+                o.transitions += 1;
+                for i in 0..nn {
+                    let mut wl = [false; 4];
+                    let mut wr = [false; 4];
+                    for b in 0..4u8 {
+                        for (side, bases, w) in [(Side::L, &gv.nodes[i].l, &mut wl), (Side::R, &gv.nodes[i].r, &mut wr)] {
+                            if bases[b as usize] {
+                                w[b as usize] = idx.answers(&ext_str(gv.term(i, side), side, b), side).iter().any(|(t, _, _)| both >> t & 1 == 1);
+                            }
+                        }
+                    }
+                    if (after2.nodes[i].l, after2.nodes[i].r) != (wl, wr) {
+                        o.fail("fix-exts-sequence-wrong", format!("[direct] fix_exts(mask {:b}) then fix_exts({:?}): node {} = {} keeps L{:?} R{:?}, want L{:?} R{:?}", mask, second, i, ascii(&gv.nodes[i].seq), after2.nodes[i].l, after2.nodes[i].r, wl, wr));
+                    }
+                }
+            }
         }
     }
 
@@ -421,6 +470,17 @@ pub fn run<K: Kmer + Send + Sync>(c: &GCase) -> Outcome {
     let g2 = compress_graph(c.stranded, &sum_spec(), g, None);
     let gv2 = graph_checks(&mut o, "recompressed", &g2, &m.pruned, true, false);
     walk_checks(&mut o, "recompressed", &g2, &gv2);
+
+    // ---- graph built from the bare key list (compress_kmers_no_exts derives the extensions itself):
+    //      extensions and edges must be exactly the adjacencies among the listed k-mers ----
+    {
+        let keys: Vec<S> = m.kept.e.keys().cloned().collect();
+        let tk = table_from_keys(&keys, k, c.stranded);
+        let kd: Vec<(K, u16)> = pruned.iter().map(|(k, (_, d))| (*k, *d)).collect();
+        let g4 = compress_kmers_no_exts(c.stranded, &sum_spec(), &kd).finish_serial();
+        let gv4 = graph_checks(&mut o, "no_exts", &g4, &tk, true, false);
+        walk_checks(&mut o, "no_exts", &g4, &gv4);
+    }
 
     // ---- unpruned (thresholded table whose extensions may point at rejected k-mers) ----
     if !m.kept.is_closed() {
